@@ -448,6 +448,23 @@ void gen_cfg(vrng *r, vcfg *c, unsigned flags, uint32_t max_dict)
 
 void vcfg_free(vcfg *c) { free(c->preset_dict); c->preset_dict = NULL; }
 
+void vcfg_move(vcfg *dst, vcfg *src)
+{
+	*dst = *src;
+	for (unsigned i = 0; i <= LZMA_FILTERS_MAX; ++i) {
+		void *o = src->filters[i].options;
+		if (o == NULL) continue;
+		if (o == (void *)&src->lzma) dst->filters[i].options = &dst->lzma;
+		for (unsigned k = 0; k < 3; ++k) {
+			if (o == (void *)&src->delta[k]) dst->filters[i].options = &dst->delta[k];
+			if (o == (void *)&src->bcj[k]) dst->filters[i].options = &dst->bcj[k];
+		}
+	}
+	src->preset_dict = NULL;
+	memset(src->filters, 0, sizeof(src->filters));
+	src->filters[0].id = LZMA_VLI_UNKNOWN;
+}
+
 ///////////////
 // alloc_mon //
 ///////////////
